@@ -100,6 +100,48 @@ def table_walorder():
         raise ValueError("property sinking: tree.root() read between the insert loops")
     if sinks[0][0] != "compact" and not re.search(r"\b" + sinks[0][0] + r"\s*\(", fn_body(eng, "compact")):
         raise ValueError("property sinking: the function with the insert loops is not called by compact")
+    # Wal::replay_committed: does the loop that groups records into transactions drop the records it has
+    # buffered when it meets the next BeginTx (a BeginTx without its CommitTx = failed commit / crash)?
+    wal = src("nervusdb-storage/src/wal.rs")
+    groupers = []
+    for nm in dict.fromkeys(re.findall(r"\bfn\s+(\w+)", wal)):
+        try:
+            b = fn_body(wal, nm)
+        except ValueError:
+            continue
+        if "CommittedTx {" in b and "WalRecord::BeginTx" in b and "WalRecord::CommitTx" in b:
+            groupers.append((nm, b))
+    groupers = [(nm, b) for nm, b in groupers if not any(nm2 != nm and b2 in b for nm2, b2 in groupers)]
+    if len(groupers) != 1:
+        raise ValueError(f"replay_committed: expected one grouping loop, got {[n for n, _ in groupers]}")
+    gname, gb = groupers[0]
+    if gname != "replay_committed_from_path" and not re.search(r"\b" + gname + r"\s*\(", fn_body(wal, "replay_committed_from_path")):
+        raise ValueError("replay_committed_from_path does not use the grouping loop")
+    arms = match_arms(gb, "WalRecord")
+    if "BeginTx" not in arms or "CommitTx" not in arms:
+        raise ValueError("replay_committed: BeginTx / CommitTx arms not recognised")
+    begin_arm = arms["BeginTx"]
+    resets = bool(re.search(r"pending\s*\.\s*clear\(\)|pending\s*=\s*Vec::new\(\)|mem::take\(&mut\s+(self\.)?pending\)", begin_arm))
+    if not re.search(r"pending\s*\.\s*push\(", gb):
+        raise ValueError("replay_committed: pending buffer not recognised")
+    # NeighborsIter / IncomingNeighborsIter: are the pending tombstones of the LAST run folded into the
+    # blocked sets (and the start node checked) before the first segment edge is read?
+    rpi = src("nervusdb-storage/src/read_path_iters.rs")
+
+    def flushes(impl_pat):
+        b = impl_fn_body(rpi, impl_pat, "next")
+        p_runs = b.find("self.run_idx < self.runs.len()")
+        p_seg = b.find("self.segment_edge_idx >=")
+        if p_runs < 0 or p_seg < 0 or p_seg < p_runs:
+            raise ValueError(f"{impl_pat}: run phase / segment phase of next() not recognised")
+        p_cont = b.find("continue;", p_runs)
+        if p_cont < 0 or p_cont > p_seg:
+            raise ValueError(f"{impl_pat}: end of the run phase not recognised")
+        return any(p_cont < m.start() < p_seg for m in re.finditer(r"self\s*\.\s*apply_pending_tombstones\(\)", b))
+    fo = flushes(r"impl\s+Iterator\s+for\s+NeighborsIter")
+    fi = flushes(r"impl\s+Iterator\s+for\s+IncomingNeighborsIter")
+    if fo != fi:
+        raise ValueError("NeighborsIter and IncomingNeighborsIter differ in the flush before the segment phase")
     out = ["-- regenerated by tools/extract.py from the current source; do not edit",
            "namespace Nervus.Generated",
            "/-- graph record kinds written by `WriteTxn::commit` -/",
@@ -120,6 +162,10 @@ def table_walorder():
            f"def compactReadsRootAfterInserts : Bool := {'true' if root_after else 'false'}",
            "/-- engine.rs compact: a sunk value REPLACES the store entry of its key (delete, then insert) -/",
            f"def compactSinkReplaces : Bool := {'true' if sink_replaces else 'false'}",
+           "/-- wal.rs replay_committed: the grouping loop drops its buffered records at every BeginTx -/",
+           f"def replayResetsPendingAtBegin : Bool := {'true' if resets else 'false'}",
+           "/-- read_path_iters.rs: the iterators fold the last run's pending tombstones before the segment phase -/",
+           f"def itersFlushBeforeSegments : Bool := {'true' if fo else 'false'}",
            "end Nervus.Generated"]
     return "\n".join(out) + "\n"
 
